@@ -557,3 +557,13 @@ Theorem normal_text_idem_partial s :
   five_of_text (recompose g) = g -> guard_normal g (five_normal g) = g ->
   normal_text (normal_text s) = normal_text s.
 Proof. cbv zeta. intros Hread Hfix. unfold normal_text. cbv zeta. rewrite Hread, Hfix. reflexivity. Qed.
+
+(* the path with its guard, as five_normal and guard_normal apply them.  _partial: behind an authority only
+   (there the guard does nothing); without an authority the case analysis of the guard ("/." in front of "//",
+   "./" in front of "//" or "/") is not done here *)
+Definition guarded_path (hs ha : bool) (p : text) : text :=
+  guard_path (is_rootless p) ha (path_normal hs ha p).
+
+Theorem guarded_path_idem_partial hs p : forallb pct_wf (split_on 47 p) = true ->
+  guarded_path hs true (guarded_path hs true p) = guarded_path hs true p.
+Proof. intros H. unfold guarded_path, guard_path. apply path_normal_idem. exact H. Qed.
